@@ -997,7 +997,7 @@ def i_sym_int(it, args, kw):
     name = args[0]
     lo = args[1] if len(args) > 1 else kw.get("lo")
     hi = args[2] if len(args) > 2 else kw.get("hi")
-    if it.float_mode == "fp" and lo is not None and hi is not None and -2 ** 62 < lo and hi < 2 ** 62:
+    if it.float_mode == "fp" and isinstance(lo, int) and isinstance(hi, int) and -2 ** 62 < lo and hi < 2 ** 62:
         # bit-vector backed (keeps int<->float conversions inside the BV/FP theories)
         bv = z3.BitVec(f"in_{name}", 64)
         _register_input(it, name, "bvint", bv)
@@ -1006,9 +1006,9 @@ def i_sym_int(it, args, kw):
     t = z3.Int(f"in_{name}")
     _register_input(it, name, "int", t)
     if lo is not None:
-        it.ex.assume(t >= lo)
+        it.ex.assume(t >= int_term(lo))
     if hi is not None:
-        it.ex.assume(t <= hi)
+        it.ex.assume(t <= int_term(hi))
     return _reg_value(it, name, SInt(t))
 
 
@@ -1203,13 +1203,23 @@ def i_get_global(it, args, kw):
     return getattr(args[0], args[1]) if ov is Env else ov
 
 
+def i_real(it, args, kw):
+    """Call the real function, not its call-site contract (for a contract that falls back to it)."""
+    saved = it.no_subst
+    it.no_subst = True
+    try:
+        return it.call(args[0], list(args[1:]), kw)
+    finally:
+        it.no_subst = saved
+
+
 def i_new_object(it, args, kw):
     return SObj(args[0], dict(kw))
 
 
 INTRINSICS = {
     "new_object": i_new_object, "sym_text": i_sym_text, "sym_idset": i_sym_idset,
-    "set_global": i_set_global, "get_global": i_get_global, "id_mapping": (lambda it, args, kw: args[0]),
+    "real": i_real, "set_global": i_set_global, "get_global": i_get_global, "id_mapping": (lambda it, args, kw: args[0]),
     "ghost": (lambda it, args, kw: it.ex.ghosts.setdefault(args[0], [])),
     "is_concrete": (lambda it, args, kw: not is_symbolic(args[0])),
     "sym_int": i_sym_int, "sym_bool": i_sym_bool, "sym_str": i_sym_str, "sym_float": i_sym_float,
